@@ -445,8 +445,10 @@ def stepL (c : SCfg) (s : SState) (l : Label) : SState :=
     match s.notifs with
     | [] => s.note .B s!"notification {id} drained but none pending"
     | (nid, k, f, r) :: rest =>
-      let s := if nid == id && f == failed && r == retried then s
-               else s.note .B s!"notification {id} {failed} {retried} drained, model expected {nid} {f} {r}"
+      -- `!s.tripDue`: `if fail_fast && failed && !retried { Break }` follows the bookkeeping of the SAME notification,
+      -- so no notification is taken while a trip is due
+      let s := if nid == id && f == failed && r == retried && !s.tripDue then s
+               else s.note .B s!"notification {id} {failed} {retried} drained, model expected {nid} {f} {r} (trip due before it: {s.tripDue})"
       let s := s.checkExpectDone "before a notification"
       let s := { s with notifs := rest }
       let s :=
